@@ -602,7 +602,7 @@ func (b *Builder) V1Foundation() bool {
 	// need an input controlled by the current subsidy or management address
 	var cand *scCand
 	for _, c := range b.spendableSC(false) {
-		if a := c.el.SiacoinOutput.Address; a == b.fSubsidy || a == b.fMgmt {
+		if a := c.el.SiacoinOutput.Address; (a == b.CS.FoundationSubsidyAddress || a == b.CS.FoundationManagementAddress) && !c.el.SiacoinOutput.Value.IsZero() {
 			cc := c
 			cand = &cc
 			break
@@ -885,7 +885,6 @@ func (b *Builder) V2Resolve() bool {
 	e := cands[rapid.IntRange(0, len(cands)-1).Draw(t, "v2res")]
 	fc := e.V2FileContract
 	var txn types.V2Transaction
-	c := b.Exp.contract(e.ID, true)
 	switch kind {
 	case "proof":
 		res, ok := b.V2ProofFor(e)
@@ -971,10 +970,9 @@ func (b *Builder) V2Resolve() bool {
 		b.usedFC[nid] = true
 		b.pool.Add(b.pool, tax)
 		b.Exp.TaxAdded = cur(new(big.Int).Add(ref.Big(b.Exp.TaxAdded), tax))
-		c = b.Exp.contract(e.ID, true) // re-fetch: slice may have grown
 	}
 	b.usedFC[e.ID] = true
-	c.Resolved = kind
+	b.Exp.contract(e.ID, true).Resolved = kind
 	b.label("v2-resolve-" + kind)
 	b.finishV2(txn, SignOpts{})
 	return true
@@ -1001,7 +999,7 @@ func (b *Builder) V2Attest() bool {
 func (b *Builder) V2Foundation() bool {
 	var cand *scCand
 	for _, c := range b.spendableSC(true) {
-		if c.el.SiacoinOutput.Address == b.fMgmt {
+		if c.el.SiacoinOutput.Address == b.CS.FoundationManagementAddress && !c.el.SiacoinOutput.Value.IsZero() {
 			cc := c
 			cand = &cc
 			break
